@@ -30,6 +30,7 @@
   Value-domain restrictions of the recognisers (year 0001-9999, second 00-59) are stated in the model.
 -/
 import ICal.Lemmas.Codec
+import ICal.Lemmas.Bodies
 namespace ICal.C03
 open ICal.Codec
 
@@ -341,6 +342,80 @@ theorem ddd_classes_disjoint (t : Str) :
     obtain ⟨a, ha⟩ := Option.isSome_iff_exists.1 h
     exact isSome_false_of fun b hb => disj_dur_period ha hb
 
+/-! ## Regenerated function bodies = hand model
+
+  `ICal.Gen.Bodies.*` are Lean definitions that tools/py2lean.py writes from the *current source text*
+  of the `to_ical` methods on every run (local assignments, `if`/`elif`/`else`, f-strings, `//`, `%`,
+  `abs`, Python truthiness, `timedelta` arithmetic; every `self.<attr>` and every external call is a
+  parameter).  The `body_*` theorems below prove each regenerated body equal to the hand-written
+  encoder of ICal/Model/Codec.lean on the whole domain of the model, so every theorem of this file
+  about `durTo`, `offTo`, `vDateTo`, `vDatetimeTo`, `vMonthTo`, `boolTo`, `intTo` is re-checked against
+  what the code says now, without sampling: a body whose meaning changed makes this file fail to
+  build.  `timedelta` is `PyRT.TD` in CPython's normal form (`TD.wf`: `0 <= seconds < 86400`);
+  `TD.toSeconds` / `TD.ofSeconds` connect it to the `Int` seconds of the model.  The translator and
+  its runtime (ICal/Model/PyRT.lean) are trusted and differentially tested against the real functions
+  and CPython's operators (harness/props/C03.py, "translated bodies").
+  `vTime.to_ical` uses `strftime` and is outside the translated subset (hand model, correspondence). -/
+
+open PyRT in
+theorem body_vDuration_to_ical (td : TD) (h : td.wf) :
+    Gen.Bodies.vDuration_to_ical td = durTo td.toSeconds :=
+  Bodies.vDuration_to_ical_eq td h
+
+open PyRT in
+theorem body_vUTCOffset_to_ical (td : TD) (h : td.wf) :
+    Gen.Bodies.vUTCOffset_to_ical td = offTo td.toSeconds :=
+  Bodies.vUTCOffset_to_ical_eq td h
+
+theorem body_vDate_to_ical (d : PDate) : Gen.Bodies.vDate_to_ical (Bodies.dateOf d) = vDateTo d :=
+  Bodies.vDate_to_ical_eq d
+
+/-- `tzid` is the answer of `tzid_from_dt(dt)` (external, a parameter); the model's `utc` flag is
+    `tzid == 'UTC'`, which is part of the translated body. -/
+theorem body_vDatetime_to_ical (t : PDateTime) (tzid : Option Str) (h : t.utc = (tzid == some Bodies.UTC)) :
+    Gen.Bodies.vDatetime_to_ical (Bodies.dateTimeOf t) tzid = vDatetimeTo t :=
+  Bodies.vDatetime_to_ical_eq t tzid h
+
+theorem body_vMonth_str (n : Int) (leap : Bool) : Gen.Bodies.vMonth_str n leap = vMonthTo n leap :=
+  Bodies.vMonth_str_eq n leap
+
+theorem body_vMonth_to_ical (n : Int) (leap : Bool) : Gen.Bodies.vMonth_to_ical n leap = vMonthTo n leap :=
+  Bodies.vMonth_to_ical_eq n leap
+
+theorem body_vBoolean_to_ical (n : Int) : Gen.Bodies.vBoolean_to_ical n = boolTo (n != 0) :=
+  Bodies.vBoolean_to_ical_eq n
+
+theorem body_vInt_to_ical (n : Int) : Gen.Bodies.vInt_to_ical n = intTo n :=
+  Bodies.vInt_to_ical_eq n
+
+/-- every `Int` of seconds is the value of exactly one normal-form `timedelta`, so the two theorems
+    above cover the whole domain of `durTo` / `offTo` -/
+theorem body_timedelta_domain (s : Int) :
+    (PyRT.TD.ofSeconds s).wf ∧ (PyRT.TD.ofSeconds s).toSeconds = s ∧
+      Gen.Bodies.vDuration_to_ical (PyRT.TD.ofSeconds s) = durTo s ∧
+      Gen.Bodies.vUTCOffset_to_ical (PyRT.TD.ofSeconds s) = offTo s :=
+  ⟨Bodies.ofSeconds_wf s, Bodies.toSeconds_ofSeconds s, Bodies.vDuration_of_seconds s, Bodies.vUTCOffset_of_seconds s⟩
+
+/-- composition, as an instance of what the tie buys: the round trip and the grammar clause hold of
+    the text that the *translated code* produces -/
+theorem body_duration_rt (td : PyRT.TD) (h : td.wf) :
+    durFrom (Gen.Bodies.vDuration_to_ical td) = some td.toSeconds ∧
+      rfcDuration (Gen.Bodies.vDuration_to_ical td) = some td.toSeconds := by
+  rw [body_vDuration_to_ical td h]
+  exact ⟨duration_rt _, duration_grammar _⟩
+
+theorem body_utcoffset_rt (td : PyRT.TD) (h : td.wf) (hb : td.toSeconds.natAbs < 86400) :
+    offFrom (Gen.Bodies.vUTCOffset_to_ical td) = .ok td.toSeconds ∧
+      rfcUtcOffset (Gen.Bodies.vUTCOffset_to_ical td) = some td.toSeconds := by
+  rw [body_vUTCOffset_to_ical td h]
+  exact ⟨utcoffset_rt _ hb, utcoffset_grammar _ hb⟩
+
+theorem body_date_rt (d : PDate) (h : d.valid = true) :
+    vDateFrom (Gen.Bodies.vDate_to_ical (Bodies.dateOf d)) = .ok d ∧
+      rfcDate (Gen.Bodies.vDate_to_ical (Bodies.dateOf d)) = some d := by
+  rw [body_vDate_to_ical d]
+  exact ⟨date_rt d h, date_grammar d h⟩
+
 /-! ## Non-vacuity: the hypotheses are satisfiable, on boundary values and on the quirks -/
 
 example : (⟨2024, 2, 29⟩ : PDate).valid = true := by decide
@@ -373,5 +448,13 @@ example : rfcPeriod "19970101T180000Z/PT5H30M".toList =
 example : dddFrom "19970101T180000Z/19970102T070000Z".toList =
     .ok (.period (.dt ⟨⟨1997, 1, 1⟩, 18, 0, 0, true⟩) (.dt ⟨⟨1997, 1, 2⟩, 7, 0, 0, true⟩)) := by decide
 example : dateText "20240229".toList = true ∧ timeText "235959Z".toList = true ∧ durText "-PT0S".toList = true := by decide
+example : (⟨-2, 79200⟩ : PyRT.TD).wf ∧ (⟨-2, 79200⟩ : PyRT.TD).toSeconds = -93600 := by decide
+example : Gen.Bodies.vDuration_to_ical ⟨-2, 79200⟩ = "-P1DT2H".toList := by decide      -- `td = -td`
+example : Gen.Bodies.vDuration_to_ical ⟨0, 3604⟩ = "PT1H0M4S".toList := by decide        -- `minutes or (hours and seconds)`
+example : Gen.Bodies.vUTCOffset_to_ical ⟨-1, 82800⟩ = "-0100".toList := by decide
+example : Gen.Bodies.vDatetime_to_ical ⟨2024, 2, 29, 23, 59, 59⟩ (some Bodies.UTC) = "20240229T235959Z".toList := by decide
+example : PyRT.fmtZ 2 (-5) = "-5".toList ∧ PyRT.fmtZ 3 (-5) = "-05".toList ∧ PyRT.fmtZ 2 123 = "123".toList := by decide
+example : PyRT.floorDiv (-7) 2 = -4 ∧ PyRT.pyMod (-7) 2 = 1 ∧ PyRT.pyMod 7 (-2) = -1 := by decide
+example : PyRT.TD.neg ⟨0, 1⟩ = ⟨-1, 86399⟩ := by decide
 
 end ICal.C03
